@@ -855,6 +855,8 @@ class Executor(object):
             v = self.on_assign(self, st, _dotted(target) if isinstance(
                 target, (ast.Name, ast.Attribute)) else 'subscript', v)
         if isinstance(target, ast.Name):
+            if isinstance(v, _Declared):
+                v = v.one()         # x = declare('matrix(n)') / declare('int')
             st.env[target.id] = v
         elif isinstance(target, (ast.Tuple, ast.List)):
             if isinstance(v, (list, tuple)):
